@@ -108,6 +108,11 @@ def gen_cases(ctx, n):
         st = G.tree_to_stack(tree, share=rng.random() < 0.7)
         if len(st) <= 90:
             cases.append(("collect", st, D))
+    # twins: sibling terms identical up to one integer leaf (equality / hashing of expressions; (-1, -2) collide in CPython's hash)
+    for k in range(max(n // 3, 150)):
+        D = rng.choice([2, 3])
+        st = G.tree_to_stack(G.twin_tree(rng, D), share=rng.random() < 0.7)
+        cases.append(("twins", st, D))
     return cases
 
 
